@@ -10,11 +10,14 @@
          (open end = year 2200), only checked when both shift times are dates;
      R5  a shift without `end` contributes the degenerate window [start.earliest, start.earliest] to E1302;
      R6  E1303: required breaks contribute [earliest, latest + duration] (exact) or [start + earliest, start + latest + duration]
-         (offset); optional offset breaks contribute nothing (the page does not describe required breaks at all);
+         (offset); an optional break given by offsets must be a pair of numbers (the counterpart of "array of two strings"),
+         a well-formed one contributes no window (the page does not describe required or offset breaks at all);
      R7  E1307 "`start.latest` is not set equal to `start.earliest`" is a comparison of the two strings;
      R8  E1504 on documents without a routing matrix: a problem that has a profile but not a single location does not match
          the (empty) approximated matrix;
-     R9  E1103 speaks about "a job which has invalid time windows": every task kind (pickup, delivery, replacement, service).
+     R9  E1103 speaks about "a job which has invalid time windows": every task kind (pickup, delivery, replacement, service);
+     R10 E1302 "start/end shift times ... time windows rules": the optional `start.latest` is one of the start times of the shift
+         and must be a date in RFC3339 format as well (no ordering between start.earliest and start.latest is demanded).
    Codes of the relation (E12xx) and objective (E16xx) groups and E1502/E1503 cannot be violated by a reduced document
    (no relations, no objectives, coordinate locations only): `violates` is false for them here; they are exercised by the
    python reference in tools/props/c10.py.
@@ -93,7 +96,7 @@ Definition inside_shift (s : shift) (ws : list (option (Z * Z))) : bool :=
 Definition break_windows (s : shift) (bs : list brk) : list (option (Z * Z)) :=       (* R6 *)
   flat_map (fun b => match b with
                      | BOptTW w => [parse_window w]
-                     | BOptOff _ => []
+                     | BOptOff o => if (List.length o =? 2)%nat then [] else [None]
                      | BReqOff e l dur => [match tm_val (sh_earliest s) with
                                            | Some dep => Some (dep + e, dep + l + dur) | None => None end]
                      | BReqExact e l dur => [match tm_val e, tm_val l with
@@ -104,8 +107,11 @@ Definition reload_windows (rs : list reload) : list (option (Z * Z)) :=
 
 Definition viol_1300 (d : doc) : bool := negb (nodupb (map v_type (d_vehicles d))).
 Definition viol_1301 (d : doc) : bool := negb (nodupb (flat_map v_ids (d_vehicles d))).
+Definition latest_is_date (s : shift) : bool :=                 (* R10 *)
+  match sh_latest s with Some l => match tm_val l with Some _ => true | None => false end | None => true end.
 Definition viol_1302 (d : doc) : bool :=
-  existsb (fun v => negb (nonempty (v_shifts v) && windows_ok false (map shift_window (v_shifts v)))) (d_vehicles d).
+  existsb (fun v => negb (nonempty (v_shifts v) && windows_ok false (map shift_window (v_shifts v)))
+                    || existsb (fun s => negb (latest_is_date s)) (v_shifts v)) (d_vehicles d).
 Definition viol_1303 (d : doc) : bool :=
   existsb (fun v => existsb (fun s => match sh_breaks s with
                                       | None => false
@@ -164,15 +170,10 @@ Definition violates (c : Z) (d : doc) : bool :=
 (* K1 (windows(2).any for three or more windows), K2 (E1103 skipped replacement / service tasks) and K3 (check_e1303 called the
    panicking parse_time) were repaired in /repo (commits c324ed4, d5aa3e7, 89050ae): they are no longer deviation classes, the
    theorems now cover those documents; the former witnesses are regression cases (corpus/C10: files k01-, k02-, k03-). *)
-(* K4: shift start.latest is not a date (no rule looks at it; read_fleet unwraps) *)
-Definition k4_start_latest_bad (d : doc) : bool :=
-  existsb (fun v => existsb (fun s => match sh_latest s with Some l => is_none (tm_val l) | None => false end)
-                            (v_shifts v)) (d_vehicles d).
-(* K5: optional break with an offset list whose length is not 2 *)
-Definition k5_offset_arity (d : doc) : bool :=
-  existsb (fun v => existsb (fun s => existsb (fun b => match b with BOptOff o => negb (List.length o =? 2)%nat | _ => false end)
-                                              (match sh_breaks s with Some bs => bs | None => [] end))
-                            (v_shifts v)) (d_vehicles d).
+(* K4 (shift start.latest is not a date: no rule looked at it, read_fleet unwraps), K5 (optional break with an offset list whose
+   length is not 2: read_optional_breaks panics) and K10 (no routing profile and no routing matrix: the approximated matrices
+   asserted before validation ran) were repaired in /repo (commits d67b161, 7653bff, 11fbd19): E1302 / E1303 / E1501 are reported
+   now, the theorems cover those documents; the former witnesses are regression cases (corpus/C10: files k04-, k05-, k10-). *)
 (* K6: vehicle type with an empty capacity vector *)
 Definition k6_capacity_empty (d : doc) : bool :=
   existsb (fun v => match v_capacity v with [] => true | _ => false end) (d_vehicles d).
@@ -190,13 +191,9 @@ Definition k8_empty_demand_vectors (d : doc) : bool :=
 (* K9: no vehicle at all (no vehicle type has a vehicle id): Fleet::new asserts, no rule asks for a vehicle *)
 Definition k9_no_vehicles (d : doc) : bool :=
   forallb (fun v => match v_ids v with [] => true | _ => false end) (d_vehicles d).
-(* K10: no routing profile and no routing matrix: the approximated matrices are built (and assert) before validation runs,
-   so E1501 is never reported on this path *)
-Definition k10_no_profiles (d : doc) : bool := match d_profiles d with [] => true | _ => false end.
 
 Definition known_table : list (Z * (doc -> bool)) :=
-  [(4, k4_start_latest_bad); (5, k5_offset_arity); (6, k6_capacity_empty); (7, k7_over8); (8, k8_empty_demand_vectors);
-   (9, k9_no_vehicles); (10, k10_no_profiles)].
+  [(6, k6_capacity_empty); (7, k7_over8); (8, k8_empty_demand_vectors); (9, k9_no_vehicles)].
 Definition known (d : doc) : bool := existsb (fun kf => snd kf d) known_table.
 
 (* ---------- entry points for the correspondence ---------- *)
